@@ -339,6 +339,64 @@ def long_lived(args) -> Dict[str, Any]:
     return {"problems": problems, "frames": seen, "rounds": w.rounds}
 
 
+def close_during_write(args) -> Dict[str, Any]:
+    """close() is the one method of the manager meant to be called from another thread. It arrives while the run loop is between two
+    send calls (header and payload of one frame, two frames of one round): every stream is still a sequence of whole frames
+    numbered 1, 2, 3, ... - at every log level, with a logger / an everything-subscriber / a subscriber of the log types listening"""
+    tc, level, listener, k = args
+    mmx.fresh_gc()
+    w = mmx.World(timecode=tc, log_level=level)
+    problems: List[Dict[str, Any]] = []
+    nframes = 0
+    fired = False
+    try:
+        ids = {"P1": IDS["P1"], "R1": IDS["R1"], "L": IDS["L"]}
+        for s in ids:
+            w.client(s, HIDS[s]).connect()
+        w.settle()
+        for s, mid in ids.items():
+            w.clients[s].send(P.mkframe(P.MT_CONNECT, P.p_connect(1 if (s == "L" and listener == "logger") else 0, 0), timecode=tc, src_mod_id=mid))
+        w.settle()
+        subs = [("R1", T1)]
+        if listener in ("logger", "all"):
+            subs.append(("L", P.ALL_MESSAGE_TYPES))
+        else:
+            subs += [("L", t) for t in (P.MT_RTMA_LOG_INFO, P.MT_RTMA_LOG_DEBUG, P.MT_RTMA_LOG_WARNING, P.MT_RTMA_LOG_ERROR, P.MT_RTMA_LOG_CRITICAL, T1)]
+        for s, t in subs:
+            w.clients[s].send(P.mkframe(P.MT_SUBSCRIBE, P.p_sub(t), timecode=tc, src_mod_id=ids[s]))
+        w.settle()
+        w.clients["P1"].send(frame(tc, IDS["P1"], 1, 64) + frame(tc, IDS["P1"], 2, 64))
+
+        def hit():
+            nonlocal fired
+            fired = True
+            w.mgr.close()
+
+        w.call_plan = (k, hit)
+        w.step(0, [])
+        for _ in range(4):
+            if not w.alive:
+                break
+            w.step(0, [])
+        seq = {s: 0 for s in ids}
+        for s, c in w.clients.items():
+            for f in c.drain():
+                nframes += 1
+                seq[s] += 1
+                if f.msg_count != seq[s]:
+                    problems.append({"kind": "sequence", "slot": s, "expected": seq[s], "got": f.msg_count, "msg_type": f.msg_type})
+                    seq[s] = f.msg_count
+            if c.stream_problem:
+                problems.append({"kind": "stream", "slot": s, "detail": c.stream_problem})
+            elif c.leftover():
+                problems.append({"kind": "partial-frame", "slot": s, "leftover": c.leftover()})
+        if w.exit and w.exit[0] not in ("returned",) and fired:
+            problems.append({"kind": "manager-" + w.exit[0], "detail": str(w.exit[1:])[:300]})
+    finally:
+        w.stop()
+    return {"problems": problems, "frames": nframes, "rounds": w.rounds, "fired": fired}
+
+
 def run_chunk(cases):
     out = []
     for c in cases:
@@ -380,6 +438,13 @@ def run(tier: str) -> int:
     res = core.pmap(run_chunk, chunks)
     largs = [(False, 70000, 2500)] if tier == "quick" else [(False, 140000, 2500), (True, 70000, 1000)]
     lres = core.pmap(long_lived, largs)
+    # the byte streams of connections that are turned away at CONNECT (whatever they were sent before the door closed)
+    from . import c19
+
+    rargs = [(tc, label, before, follow, ("C05",)) for tc in (False, True) for label, _ in c19.REFUSED for before in (0, 1, 2) for follow in (False, True)]
+    rres = core.pmap(c19.refused_case, rargs)
+    cargs = [(tc, level, listener, k) for tc in (False, True) for level in (10, 20, 30) for listener in ("logger", "all", "logtypes") for k in range(1, 13)]
+    cres = core.pmap(close_during_write, cargs)
     core.close_pool()
     nexec = frames = rounds = 0
     sigs = set()
@@ -406,6 +471,20 @@ def run(tier: str) -> int:
         rounds += lr["rounds"]
         for p in lr["problems"]:
             chk.violation(f"C05:{p['kind']}:long-lived", f"long-lived connection {la}: {p}", {"module": "vf.checks.c05", "long_lived": list(la)}, size=5000)
+    nfired = 0
+    for ca, cr in zip(cargs, cres):
+        nexec += 1
+        frames += cr["frames"]
+        rounds += cr["rounds"]
+        nfired += 1 if cr["fired"] else 0
+        for p in cr["problems"]:
+            chk.violation(f"C05:{p['kind']}:close-during-write", f"close() called between two sends {ca}: {p}", {"module": "vf.checks.c05", "close_during_write": list(ca)}, size=30)
+    chk.count("close_calls_between_sends", nfired)
+    for ra, rr in zip(rargs, rres):
+        nexec += 1
+        rounds += rr["rounds"]
+        for p in rr["problems"]:
+            chk.violation(f"C05:{p['kind']}:refused-connection", f"connection refused at CONNECT {ra[:4]}: {p}", {"module": "vf.checks.c05", "refused": list(ra[:4])}, size=20)
     chk.sample({"tc": cases[0][0], "n": cases[0][1], "schedule": cases[0][3], "destinations": cases[0][4]})
     chk.sample({"schedule_with_deviation": cases[-1][3]})
     chk.assumptions += ["virtual TCP model (vf.net)", "2 publishers, <= 3 messages each, 4 receivers", "<= 2 deviations per schedule"]
@@ -417,6 +496,20 @@ def run(tier: str) -> int:
 def replay(case) -> int:
     if "long_lived" in case:
         r = long_lived(tuple(case["long_lived"]))
+        for p in r["problems"]:
+            print("  PROBLEM:", p)
+        print("reproduced" if r["problems"] else "NOT reproduced")
+        return 1 if r["problems"] else 0
+    if "close_during_write" in case:
+        r = close_during_write(tuple(case["close_during_write"]))
+        for p in r["problems"]:
+            print("  PROBLEM:", p)
+        print("reproduced" if r["problems"] else "NOT reproduced")
+        return 1 if r["problems"] else 0
+    if "refused" in case:
+        from . import c19
+
+        r = c19.refused_case(tuple(case["refused"]) + (("C05",),))
         for p in r["problems"]:
             print("  PROBLEM:", p)
         print("reproduced" if r["problems"] else "NOT reproduced")
